@@ -27,7 +27,9 @@ RULE = ('unimolecular rules from 30 hand-written edit templates (incl. non-commu
         'Non-trivial = a (rule, molecule) with >=1 embedding whose product '
         'sets were all compared with the reference graphs, or a rule whose '
         'accept/reject decision was compared with the balance; distinct by '
-        '(rule text, molecule).')
+        '(rule text, molecule).'
+        ' Also: formal-charge edits (acceptance not judged, application '
+        'judged; INCONCLUSIVE if none was applied) on an ion pool. ')
 ASSUMPTIONS = [
     'unimolecular rules; reactant groups / duplicates and constraints{} are '
     'outside the statement; WHETHER a rule with formal-charge edits is '
